@@ -53,6 +53,7 @@ def expand_templates(text):
             inst = block.replace("{%s}" % var, val)
             for k, ch in enumerate(val):
                 inst = inst.replace("{%s%d}" % (var, k), ch)
+                inst = inst.replace("{%s:%d}" % (var, k), val[k:])
             out.append(inst)
         pos = end
     out.append(text[pos:])
